@@ -37,3 +37,25 @@ def fx_provider(cfg, pname, inputs):
 
 
 FIXTURES["Prov"] = fx_provider
+
+
+_cur_cfg = [None]
+
+
+def fx_cloudsync(cfg, pname, inputs):
+    from cloudsync.cs import CloudSync
+    cs = CloudSync.__new__(CloudSync)
+    # pystrict freezes attribute creation outside __init__: set the fields the lemma reads directly
+    object.__setattr__(cs, "providers", (provider_class(cfg["p0"])(), provider_class(cfg["p1"])()))
+    object.__setattr__(cs, "roots", (inputs.get("root0", "/"), inputs.get("root1", "/")))
+    object.__setattr__(cs, "_verif_side", cfg["side"])
+    return cs
+
+
+def gen_cloudsync(rng, pname):
+    from pyvc.concrete import gen_value
+    return {"root0": "/" + gen_value(rng, "str", True), "root1": "/" + gen_value(rng, "str", True)}
+
+
+FIXTURES["CS"] = fx_cloudsync
+GENERATORS["CS"] = gen_cloudsync
